@@ -127,7 +127,7 @@ func c07EveryKind(wc *wireCtx, r *Report) {
 
 func init() {
 	register("C07", "Completeness conditions visible in the generators' shape: (kinds) every grammatical field kind x repeat cell has a kind-specific emission site in each language's encode and decode emitters; (tables) every grammatical scalar type has a row in each language's scalar table (a miss emits nothing); "+
-		"(packets) each generator emits for every packet (plain range over the packet list/map, only the root-first skip) and recurses into inline objects; (byte-order columns) little-endian method names come from the table's Le column; (variants) Rust emits one enum variant / encode arm per packet; (diagnostics) a generator error reaches cmd.Compile's error result. "+
+		"(packets) each generator emits for every packet (plain range over the packet list/map, only the root-first skip) and recurses into inline objects; (byte-order columns) little-endian method names come from the table's Le column; (variants) Rust emits one enum variant / encode arm per packet; (diagnostics) a generator error reaches cmd.Compile's error result, across helpers; (ordering) emitters that write packets ahead of their users do so for match targets too; (escaping) quoted values are not interpolated through the html/template renderer. "+
 		"Whether emitted files parse and type-check in their languages needs the five toolchains and is NOT decided.", func(w *World, r *Report) {
 		wc := buildWire(w, r)
 		c07EveryKind(wc, r)
@@ -141,7 +141,7 @@ func init() {
 		wireTemplateTaint(w, wc, r, "C07", []string{"go", "rust", "java", "python", "cpp", "lua"})
 		wireAssumptions(r)
 	})
-	register("C17", "Necessary conditions on the emitted self-tests, visible in the sample/test emitters: every scalar table row has a non-empty sample value; every generator emits a test for every packet; the Rust and C++ test emitters copy back the fields their encoders overwrite (length and checksum) before comparing. "+
+	register("C17", "Necessary conditions on the emitted self-tests, visible in the sample/test emitters: every scalar table row has a non-empty sample value; every generator emits a test for every packet; the Rust and C++ test emitters copy back the fields their encoders overwrite (length and checksum) before comparing; 4-byte float samples are exactly representable; the sample-instance emitters keep no re-assigned string state from one field to the next. "+
 		"Whether the emitted tests build and pass is a runtime fact about five toolchains and is NOT decided (the core of C17).", func(w *World, r *Report) {
 		wc := buildWire(w, r)
 		c17Samples(w, r)
